@@ -114,6 +114,12 @@ def gen_function(world, contracts, externals, key):
         for (lab, ast, txt) in c['returns']:
             if getattr(V, 'return_clause_sites', {}).get(lab, 0) == 0:
                 raise OutOfSubset('return clause [%s] of %s applies to no return statement (a variable it names no longer exists)' % (lab, key))
+    if c is not None and c.get('loops'):
+        from .symex import cfg_of
+        have_ = {l['ordinal'] for l in cfg_of(world.prog, key)['loops'].values()}
+        for k_ in c['loops']:
+            if k_ not in have_:
+                raise OutOfSubset('the contract of %s names loop %s but the function has only %d loops (a loop was removed or merged)' % (key, k_, len(have_)))
     seen_ = getattr(V, 'call_clause_seen', {})
     if c is not None:
         for (ckey_, lab_, ast_, txt_) in c.get('calls') or []:
